@@ -23,12 +23,12 @@ ALL_KEYS = PROP_KEYS + [
     "tag:valid", "tag:valid2", "tag:synth", "tag:empty", "tag:malformed", "tag:sep",
     "ann:valid", "ann:valid2", "ann:neg", "ann:plus", "ann:empty", "ann:nonnum", "ann:far",
     "ann:huge", "ann:negfar", "ann:fw", "ann:sep",
-    "dep:t2", "dep:t3", "dep:self", "dep:missing", "dep:empty", "dep:malformed", "dep:sep",
+    "dep:t2", "dep:t2alt", "dep:t3", "dep:self", "dep:missing", "dep:empty", "dep:malformed", "dep:sep",
     "uda:plain", "uda:ns", "uda:near", "uda:empty"]
 ALL_PRIORS = ["absent", "empty", "fresh", "done", "deleted", "pendend", "donenoend", "rich",
               "garbage", "recurring"]
 
-CORE_KEYS = ["status", "wait", "start", "modified", "dep:t2", "dep:self", "tag:valid", "tag:synth",
+CORE_KEYS = ["status", "wait", "start", "modified", "dep:t2", "dep:t2alt", "dep:self", "tag:valid", "tag:synth",
              "ann:far", "uda:plain"]
 BASE = {"Dev": set(), "Mode": "read", "EnumKeys": set(ALL_KEYS), "MaxEntries": 2, "CoreOnly": True,
         "CoreKeys": set(CORE_KEYS),
